@@ -49,7 +49,25 @@ class SchedFamily(Family):
                     res.fail('C02-listing-history', 'program %r: listing after every add gives a different final listing (%d vs %d operations)' % (prog, len(inc_ops), len(ops)))
                 else:
                     judge.check_listing(b_inc, inc_ops, b_inc.circ.operations, 'built with intermediate listings')
-                world.clear_memo()
+                # variants of the same program: relations given through shared link objects; blocks handed over as structures
+                has_rel = any(e[0] == 'op' and e[3] is not None for e in prog)
+                has_blk = any(e[0] == 'sub' for e in prog)
+                ref_sig = structure_sig(ops, circ.composite_operations)
+                for label, kw in ((('shared relation objects', {'share_links': True}),) if has_rel else ()) + \
+                        ((('blocks added as structures', {'via_structure': True}),) if has_blk else ()):
+                    bv = build(prog, **kw)
+                    vops = bv.circ.operations
+                    if structure_sig(vops, bv.circ.composite_operations) != ref_sig:
+                        res.fail('C02-variant-listing', 'program %r built with %s lists differently (%d vs %d operations)' % (prog, label, len(vops), len(ops)))
+                    else:
+                        judge.check_listing(bv, vops, bv.circ.operations, label)
+                    if kw.get('via_structure'):
+                        for i, sb in enumerate(bv.subs):
+                            if sb is not None:
+                                given = sb.circ.circuit_structure
+                                if bv.ent[i] is given or set(map(id, bv.ent[i].decomposed_operations())) & set(map(id, given.decomposed_operations())):
+                                    res.fail('C02-block-not-copied', 'program %r: a block handed to add as a structure is listed by reference (adding to the source afterwards would change the circuit)' % (prog,))
+                    world.clear_memo()
             ok = True
             if 'C01' in self.want:
                 ok = judge.validate_tree(b)
